@@ -588,6 +588,9 @@ class SimOS(object):
     def getcwd(self):
         return self._fs.CWD
 
+    def getpid(self):
+        return 4242
+
     def fspath(self, p):
         return p
 
